@@ -279,6 +279,9 @@ def run_shard(ctx):
     f3, _ = build((0, 0, 0, 1), "literal", "none", "trees")
     f3.extra_sheets = {}
     structural.append(("two-entity-rows", f3))
+    for variant in ("blank-list-name", "only-label", "only-update-if", "same-list-name"):
+        f4, _ = build((0, 0, 0, 1), "literal", "none", "trees")
+        structural.append((f"two-entity-rows:{variant}", f4))
     for name, form in structural:
         n += 1
         if not ctx.mine(n):
@@ -287,6 +290,16 @@ def run_shard(ctx):
         if name == "two-entity-rows":
             h, rows = sheets["entities"]
             sheets["entities"] = (h, rows + [["second"] + rows[0][1:]])
+        elif name.startswith("two-entity-rows:"):
+            h, rows = sheets["entities"]
+            v = name.split(":")[1]
+            second = {"blank-list-name": [None] + rows[0][1:], "only-label": [None if x != "label" else "concat('second', 'row')" for x in h],
+                      "only-update-if": [None] * len(h), "same-list-name": list(rows[0])}[v]
+            if v == "only-update-if":
+                h = h + ["update_if", "entity_id"]
+                rows = [r + [None, None] for r in rows]
+                second = [None] * (len(h) - 2) + ["true()", "'x'"]
+            sheets["entities"] = (h, rows + [second])
         o = drive.convert_sheets(sheets)
         ctx.ctr("rejections_judged")
         ctx.case(sig=f"structural|{name}")
@@ -294,6 +307,27 @@ def run_shard(ctx):
             ctx.viol(f"accepted-but-must-reject:{name}", "converted", common.witness(form, structural=name))
         elif not o.exc_is_pyxform:
             ctx.viol(f"internal-exception:{o.exc_type}:{name}", o.brief(), common.witness(form, structural=name))
+    # a question that happens to be called like the generated declaration ('entity') is an ordinary question and may be referenced
+    for qname, mode in itertools.product(("entity", "Entity", "label", "dataset"), ("create", "update")):
+        n += 1
+        if not ctx.mine(n):
+            continue
+        f5 = gen.simple_form([("text", qname, {"label": "Q"}), ("text", "other", {"label": "O", "save_to": "p1"})])
+        f5.entities = {"list_name": "trees", "label": "concat('L', ${%s})" % qname}
+        if mode == "update":
+            f5.entities.update({"entity_id": "${%s}" % qname, "update_if": "${%s} != ''" % qname})
+        else:
+            f5.entities["create_if"] = "${%s} != ''" % qname
+        o = drive.convert_form(f5)
+        ctx.ctr("accepted_compared")
+        ctx.case(sig=f"question-named|{qname}|{mode}")
+        if not o.ok:
+            ctx.viol(f"rejected-but-valid:question-named-like-generated-node", f"a question named {qname!r} referenced from the entities sheet ({mode}): {o.brief()}", common.witness(f5, qname=qname))
+            continue
+        p5 = xf.Parsed(o.xform)
+        lb = [b for b in p5.binds() if b.get("nodeset") == "/data/meta/entity/label"]
+        if len(lb) != 1 or f"/data/{qname}" not in (lb[0].get("calculate") or ""):
+            ctx.viol("entity:label-bind", f"label bind {[b.attrib for b in lb]} does not read /data/{qname}", common.witness(f5, qname=qname))
     # no entities sheet -> no namespace / version
     n += 1
     if ctx.mine(n):
